@@ -327,6 +327,9 @@ func (e *HungError) Error() string { return "request hung (server still serving)
 // wedgeOrHung classifies a request that could not be completed: if a following
 // trivial request (taking the metadata locks and reading the store) is still
 // served the server is alive and only that request hangs.
+// ClassifyWedge is wedgeOrHung for executors that issue their own batches.
+func (w *World) ClassifyWedge(what, stacks string) error { return w.wedgeOrHung(what, stacks) }
+
 func (w *World) wedgeOrHung(what, stacks string) error {
 	res, err := w.Do(proto.Cmd{Op: "batch", Mode: "return", Reqs: []proto.Req{
 		{Client: "probe", Kind: "http", Method: "GET", URL: "/api/repos/info"},
